@@ -217,6 +217,13 @@ pub fn gen(rng: &mut Rng, thorough: bool, sink: &mut Sink) {
       for (p, s) in [(w, ""), ("", w), (w, w)] { let full = format!("{}{}{}", p, base, s); sink.case(bcase(1, full.as_bytes()), "whitespace"); sink.case(bcase(2, full.as_bytes()), "whitespace"); }
     }
   }
+  // several leading / trailing blanks shift every third-party offset (the parser trims for parsing, stores untrimmed)
+  for base in ["did:a:b", "did:a:b?q", "did:ab:c?q", "did:abc:d?x=1", "did:a:b?q#f", "did:a:b#f", "did:a:b/p", "did:a:b/p?q", "did:a:bcd?q", "did:a:b:c?q"] {
+    for w in [" ", "\t", "\u{0}"] { for k in 1..6usize { for (pre, suf) in [(k, 0usize), (0, k), (k, 1)] {
+      let full = format!("{}{}{}", w.repeat(pre), base, w.repeat(suf));
+      sink.case(bcase(1, full.as_bytes()), "whitespace-shift"); sink.case(bcase(2, full.as_bytes()), "whitespace-shift");
+    } } }
+  }
   for s in ["", "d", "did", "did:", "did::", "did:a", "did:a:", "DID:a:b", "dad:a:b", "did:A:b", "did:a:b:c:d", "did:a:b/", "did:a:b?", "did:a:b#", "did:a:b???", "did:a:b/p?q#f", "did:a:b/%41", "did:a:b?%41", "did:a:b#%41", "did:a:%41", "did:a:%4", "did:a:%+1", "did:a:%+1x", "did:a:b%41", "did:a:%41%42x", "did:a:%41%4", "did:m:x/%aa?q", "did:a:b/../c", "did:a:b//", "did:a:b#a#b", "did:a:b?a?b"] {
     sink.case(bcase(1, s.as_bytes()), "table"); sink.case(bcase(2, s.as_bytes()), "table");
   }
@@ -237,6 +244,7 @@ pub fn gen(rng: &mut Rng, thorough: bool, sink: &mut Sink) {
       let mut b = s.clone().into_bytes(); let i = rng.below(b.len() as u64) as usize; b[i] = *rng.pick(&[b'%', b' ', b'#', b'?', b'/', b':', b'{', b'+', b'A']);
       if let Ok(m) = String::from_utf8(b) { s = m; }
     }
+    if rng.chance(1, 10) { let k = rng.range(1, 5) as usize; s = format!("{}{}", " ".repeat(k), s); }
     sink.case(bcase(1, s.as_bytes()), "random"); sink.case(bcase(2, s.as_bytes()), "random");
     if valid_pool.len() < 40 && DIDUrl::parse(&s).is_ok() && !s.contains('%') { valid_pool.push(s); }
   }
